@@ -61,7 +61,7 @@ def pattern_witness(oracle, cex):
         got = (r.get('hover') or [None])[0] if isinstance(r, dict) else None
         if not isinstance(r, dict) or 'panic' in r or 'died' in r:
             return 'hover on %r: %s' % (prog, r)
-        if got is None or want not in got:
+        if want is not None and (got is None or want not in got):
             return 'hover on %s in %r shows %r, Gleam assigns %s' % (var, prog, got, want)
     return None
 
@@ -82,7 +82,7 @@ def run_kernel(chk, tier, jobs, props):
     for mm, kk in ((1, 1), (2, 1), (2, 2), (3, 2)) if tier == 'quick' else ((1, 1), (2, 1), (2, 2), (3, 1), (3, 2), (3, 3)):
         res, complete = explore.explore(unifier.ctorpat_factory, (mm, kk), jobs=1)
         chk.add_run('infer_pattern on a constructor pattern: %d fields (labels from {none,a,b}, unlabelled first), %d sub-patterns (positional first, then labelled)' % (mm, kk), res, complete,
-                    {'fields': mm, 'sub_patterns': kk}, nontrivial_classes=lambda c: c.startswith('bound'))
+                    {'fields': mm, 'sub_patterns': kk}, nontrivial_classes=lambda c: c.startswith('bound') or c.startswith('ill-formed'))
         found += [v for v in res.violations if any(w.startswith(tuple(props)) for w in v['why'])]
     from . import deporder
     deporder.W = unifier.W
